@@ -427,6 +427,33 @@ class World:
                     return f1(*args, **kw)
 
             return CallObj()
+        if flavour == "fobj":
+            # a callable object that is falsy (an empty container with __call__)
+            async def f3(*args, **kw):
+                for _ in range(w.fn_susp):
+                    await Suspend(w)
+                return body(args, kw)
+
+            class FalsyCallObj:
+                def __call__(self, *args, **kw):
+                    return f3(*args, **kw)
+
+                def __len__(self):
+                    return 0
+
+            return FalsyCallObj()
+        if flavour == "dcobj":
+            # a dataclass-like callable: compares by value (all instances equal), hence unhashable
+            class ValueCallObj:
+                __hash__ = None
+
+                def __eq__(self, other):
+                    return type(other) is type(self)
+
+                def __call__(self, *args, **kw):
+                    return body(args, kw)
+
+            return ValueCallObj()
         if flavour == "defaw":
             # a plain function that does its work when called and hands back an awaitable of
             # the result (a second call is a second use)
@@ -456,6 +483,7 @@ class World:
 ITER_FLAVOURS = ("list", "seq", "iter", "agen", "acls", "bare", "adual")
 ASYNC_FLAVOURS = ("agen", "acls")
 FN_FLAVOURS = ("def", "adef", "partial", "obj", "defaw")
+ODD_FN_FLAVOURS = ("fobj", "dcobj")  # falsy / value-comparing callable objects (explicit jobs only)
 
 
 class SrcState:
